@@ -191,6 +191,29 @@ def generate(o):
                 return [ast.unparse(e) for e in n.comparators[0].elts]
         raise KeyError("epoch type tuple")
 
+    def cast_bodies():
+        """parse_date / parse_time / parse_timestamp: statements with string constants blanked."""
+        tys = Src("orso/types.py")
+
+        class Blank(ast.NodeTransformer):
+            def visit_Constant(self, n):
+                return ast.Constant(value="") if isinstance(n.value, str) else n
+
+            def visit_JoinedStr(self, n):
+                return ast.Constant(value="")
+
+        out = []
+        for f in ("parse_date", "parse_time", "parse_timestamp"):
+            fn_ = copy.deepcopy(tys.func(f))
+            body = [st for st in fn_.body if not (isinstance(st, ast.Expr) and isinstance(st.value, ast.Constant))]
+            out.append("; ".join(ast.unparse(ast.fix_missing_locations(Blank().visit(st))).replace("\n", " ").replace("    ", "") for st in body))
+        return out
+
+    cb = o.item("iso.cast_bodies", cast_bodies, [
+        "result = parse_iso(x); if result is None: raise ValueError(''); return result.date()",
+        "if isinstance(x, datetime.time): return x; result = parse_iso(x); if result is None: raise ValueError(''); return result.time()",
+        "result = parse_iso(x); if result is None: raise ValueError(''); return result",
+    ])
     c = o.item("iso.caught", caught, ["ValueError", "TypeError", "OverflowError", "OSError"])
     et = o.item("iso.epoch_types", epoch_types, ["int", "numpy.int64", "float", "numpy.float64"])
     zc = o.item("iso.z_char", z_char, "Z")
@@ -237,5 +260,7 @@ def generate(o):
     t += "def slicesDate : List (Nat × Nat) := %s\n" % lean_list(sl[0], pair)
     t += "def slicesSec : List (Nat × Nat) := %s\n" % lean_list(sl[1], pair)
     t += "def slicesMin : List (Nat × Nat) := %s\n" % lean_list(sl[2], pair)
+    t += "/-- bodies of parse_date / parse_time / parse_timestamp (orso/types.py), string constants blanked -/\n"
+    t += "def parseDateBody : String := %s\ndef parseTimeBody : String := %s\ndef parseTimestampBody : String := %s\n" % tuple(lean_str(x) for x in cb)
     t += "end Gen.Iso\n"
     o.files["Iso.lean"] = t
